@@ -316,6 +316,10 @@ def run(tier):
     block_scalar_stops_at_marker(rep, F)
     from . import markers
     rep.floor("document marker tests in the scanner", markers.check(rep, F), 4)
+    # a remembered absolute index is compared with the cursor's index, never with its column (a column agrees with the index on the first
+    # line of a stream only: the same text would scan differently after an earlier document)
+    from . import units
+    rep.floor("comparisons between cursor coordinates of known unit", units.check(rep, F), 3)
     return rep
 
 
